@@ -396,6 +396,10 @@ class Report:
                   assumptions=self.assumptions, wall_s=round(time.time() - self.t0, 1), violations=len(self.violations))
         if not self.cov["samples"]:
             self.cov["samples"] = ["(no sample recorded)"]
+        if self.cov["model_drift"]:
+            # executions the specification does not allow although no clause of the property fails on them: not a verdict
+            # about the property, but on the unchanged tree it means the specification misdescribes the code
+            print("MODEL-DRIFT property=%s histories=%d first: %s" % (self.prop, len(self.cov["model_drift"]), self.cov["model_drift"][0][:300]))
         # a run against a scratch copy of the repository (VERIF_REPO, used by bin/seedcheck) must not
         # overwrite the evidence of the real tree
         evdir = os.path.join(ROOT, "evidence")
